@@ -234,6 +234,17 @@ pub fn c10_cases(thorough: bool) -> Vec<IppCase> {
 
 // ---------------------------------------------------------------- C13
 
+/// literal value sets (v1, r1, v2, r2, k): 0, 1, -1, values above 2^64 and structured limb patterns
+pub fn c13_literal_sets() -> Vec<[&'static str; 5]> {
+    vec![
+        ["36893488147419103237", "-1", "1", "0", "18446744073709551629"],
+        ["18446744073709551619", "1", "340282366920938463463374607431768211460", "2", "18446744073709551629"],
+        ["3062541302288446171336392163549299867653", "3", "37662610412320084584716148373850690813986345936164176789511", "0", "2"],
+        ["0", "0", "1", "-1", "-1"],
+        ["25108406941546723055343157692830665664483208754150976258059", "-2", "37662610412320084585056430740771629277394380311374816346125", "5", "3"],
+    ]
+}
+
 pub fn job_c13<C: Base + 'static>(variant: &str, seed: u64, curve: &str) -> Job
 where
     C::ScalarField: Inner,
@@ -252,13 +263,15 @@ where
     let mut vals = SymVals::<C::ScalarField>::new(seed);
     let lit = |s: &str| -> SymF<C::ScalarField> {
         use core::str::FromStr;
-        SymF::lit(C::ScalarField::from_str(s).ok().unwrap())
+        match s.strip_prefix('-') {
+            Some(r) => -SymF::lit(C::ScalarField::from_str(r).ok().unwrap()),
+            None => SymF::lit(C::ScalarField::from_str(s).ok().unwrap()),
+        }
     };
-    let (v1, r1, v2, r2, kk): (SymF<_>, SymF<_>, SymF<_>, SymF<_>, SymF<_>) = if variant.ends_with("literals") {
-        // 0, 1, -1 and a value above 2^64 as literals
-        (lit("36893488147419103237"), -SymF::one(), SymF::one(), SymF::zero(), lit("18446744073709551629"))
+    let sets: Vec<[SymF<C::ScalarField>; 5]> = if variant.ends_with("literals") {
+        c13_literal_sets().iter().map(|s| [lit(s[0]), lit(s[1]), lit(s[2]), lit(s[3]), lit(s[4])]).collect()
     } else {
-        (vals.fresh("v"), vals.fresh("r"), vals.fresh("v"), vals.fresh("r"), vals.fresh("k"))
+        vec![[vals.fresh("v"), vals.fresh("r"), vals.fresh("v"), vals.fresh("r"), vals.fresh("k")]]
     };
     let mk = |v: SymF<C::ScalarField>, r: SymF<C::ScalarField>| -> Lin {
         let (tv, tr) = (v.tid(), r.tid());
@@ -273,18 +286,30 @@ where
             m
         })
     };
-    let c1 = pc.commit(v1, r1);
-    let c2 = pc.commit(v2, r2);
-    let mut items = lin_eq_items("commit(v1,r1)", &c1.lin(), &mk(v1, r1));
-    items.extend(lin_eq_items("commit(v2,r2)", &c2.lin(), &mk(v2, r2)));
-    let sum: SymP<C> = SymP::from(c1) + SymP::from(c2);
-    let csum = pc.commit(v1 + v2, r1 + r2);
-    items.extend(lin_eq_items("commit(v1,r1)+commit(v2,r2)=commit(v1+v2,r1+r2)", &sum.lin(), &csum.lin()));
-    job.check("homomorphism holds on the shadow curve", sum.p == SymP::<C>::from(csum).p, String::new());
-    let scaled: SymP<C> = SymP::from(c1) * kk;
-    let cscaled = pc.commit(kk * v1, kk * r1);
-    items.extend(lin_eq_items("k*commit(v,r)=commit(kv,kr)", &scaled.lin(), &cscaled.lin()));
-    job.check("scaling holds on the shadow curve", scaled.p == SymP::<C>::from(cscaled).p, String::new());
+    let mut items = vec![];
+    let (mut v1, mut r1) = (SymF::<C::ScalarField>::zero(), SymF::<C::ScalarField>::zero());
+    let mut c1 = pc.commit(v1, r1);
+    for (si, set) in sets.iter().enumerate() {
+        let (sv1, sr1, v2, r2, kk) = (set[0], set[1], set[2], set[3], set[4]);
+        v1 = sv1;
+        r1 = sr1;
+        c1 = pc.commit(v1, r1);
+        let c2 = pc.commit(v2, r2);
+        items.extend(lin_eq_items(&format!("set{} commit(v1,r1)", si), &c1.lin(), &mk(v1, r1)));
+        items.extend(lin_eq_items(&format!("set{} commit(v2,r2)", si), &c2.lin(), &mk(v2, r2)));
+        let sum: SymP<C> = SymP::from(c1) + SymP::from(c2);
+        let csum = pc.commit(v1 + v2, r1 + r2);
+        items.extend(lin_eq_items(&format!("set{} commit(v1,r1)+commit(v2,r2)=commit(v1+v2,r1+r2)", si), &sum.lin(), &csum.lin()));
+        job.check(&format!("set{}: homomorphism holds on the shadow curve", si), sum.p == SymP::<C>::from(csum).p, String::new());
+        let refp: C::Group = pc.B.p * v1.v + pc.B_blinding.p * r1.v;
+        job.check(&format!("set{}: commit equals v*B + r*Bblind on the shadow curve (computed with plain scalar multiplication)", si), SymP::<C>::from(c1).p == refp, String::new());
+        let ref2: C::Group = pc.B.p * v2.v + pc.B_blinding.p * r2.v;
+        job.check(&format!("set{}: second commitment equals v*B + r*Bblind on the shadow curve", si), SymP::<C>::from(c2).p == ref2, String::new());
+        let scaled: SymP<C> = SymP::from(c1) * kk;
+        let cscaled = pc.commit(kk * v1, kk * r1);
+        items.extend(lin_eq_items(&format!("set{} k*commit(v,r)=commit(kv,kr)", si), &scaled.lin(), &cscaled.lin()));
+        job.check(&format!("set{}: scaling holds on the shadow curve", si), scaled.p == SymP::<C>::from(cscaled).p, String::new());
+    }
     let czero = pc.commit(SymF::zero(), SymF::zero());
     job.check("commit(0,0) is the identity", czero.p.is_zero() && czero.lin().is_empty(), String::new());
     // Prover::commit returns the same function of its inputs and absorbs exactly that point
